@@ -89,6 +89,7 @@ def gen_run(rng, cfg):
     # swarm "style": which long-lived object the history concentrates on
     style = _pick_weighted(rng, [("mixed", 5), ("generator", 2), ("lexer", 1), ("parser", 2)])
     main_gen = (rng.random() < 0.4, rng.choice(["plain", "plain", "plain", "Upper", "UpperMore"]))
+    main_obj = rng.choice(["P0", "P1", "P1"])  # most calls of a history go to one parser
     if style == "generator":
         mix = {"parse": 0.1, "lex": 0.0, "gen": 1.0, "parse_file": 0.0}
         n_ops = max(n_ops, rng.choice([3, 4, 6, 8, 12]))
@@ -134,7 +135,7 @@ def gen_run(rng, cfg):
         fault = None
         dirty_next = False
         if kind == "parse":
-            op["obj"] = rng.choice(["P0", "P1", "P1"])
+            op["obj"] = main_obj if rng.random() < 0.8 else rng.choice(["P0", "P1"])
             op["filename"] = rng.choice(FILENAMES)
             if enabled and rng.random() < fault_rate:
                 fk = rng.choice(enabled)
@@ -169,7 +170,7 @@ def gen_run(rng, cfg):
                     op["untraced"] = True
                     dirty_next = True
         elif kind == "parse_file":
-            op["obj"] = rng.choice(["P0", "P1"])
+            op["obj"] = main_obj if rng.random() < 0.8 else rng.choice(["P0", "P1"])
             op["filename"] = rng.choice(["vfs/a.c", "vfs/b.c", "vfs/dir/x.c"])
             op["use_cpp"] = rng.random() < 0.4
             if op["use_cpp"]:
@@ -214,6 +215,11 @@ def gen_run(rng, cfg):
                 else:
                     pv = W.ProgGen(rng, actor=None, size=rng.choice([1, 2, 3]), depth=depth, sloppy=0.0, marks=False)
                     items = pv.program()
+            prev_gen = [o for o in ops if o["op"] == "gen"]
+            if prev_gen and rng.random() < 0.35:
+                # the same tree again (the same AST *object*), usually another node of it
+                items = list(rng.choice(prev_gen)["items"])
+                op["same_ast"] = True
             op["select"] = [rng.choice(GEN_SELECT), rng.randrange(8), rng.sample(GEN_SELECT[1:10], 3)]
             if rng.random() < 0.8:
                 op["reduce"], op["gencls"] = main_gen  # keep the reuse chain on one generator
@@ -226,10 +232,12 @@ def gen_run(rng, cfg):
             op["fault"] = fault
         ops.append(op)
         dirty = dirty_next
+    gc_plan = rng.choice([{"mode": "op-end"}, {"mode": "op-end"}, {"mode": "off"}, {"mode": "steps", "every": rng.choice([300, 2000, 10000])}])
     spec = {
         "property": "C12",
         "mode": "token",
         "check_fresh": True,
+        "gc": gc_plan,
         "policy": {"kind": "rtc"},
         "actors": [{"reuse": True, "ops": ops}],
         "swarm": {"faulty": faulty, "enabled": enabled, "size": size, "depth": depth, "sloppy": sloppy, "style": style},
@@ -270,7 +278,7 @@ def op_key(op):
 
 def baseline_spec(op):
     """The same operation, alone, on brand-new objects, no fault."""
-    o = {k: v for k, v in op.items() if k not in ("fault", "mut")}
+    o = {k: v for k, v in op.items() if k not in ("fault", "mut", "same_ast")}
     return {
         "property": "C12",
         "mode": "token",
@@ -429,6 +437,8 @@ def probes(spec, result):
                 failed_typedef_names.setdefault(obj, set()).update(decl)
         if op["op"] == "gen" and k == "ok":
             bump("gen_node:" + str(r.get("node")))
+            if r.get("same_ast_object"):
+                bump("generator_revisits_same_ast_object")
         if op["op"] == "lex" and op.get("take") is not None:
             bump("lexer_abandoned")
             if post.get("pending"):
